@@ -1227,7 +1227,14 @@ func (r *Resolver) answer(ctx context.Context, req, resp *dns.Msg, parentDS []dn
 			if terminalNODATA {
 				middleware.PropagateValidatedNegativeProofResponse(ctx, targetMsg, resp)
 			}
-			resp.Ns = append(resp.Ns, targetMsg.Ns...)
+			// As for the terminal denial above, the authority section is the
+			// target's proof and nothing else. What the DNAME's own server put
+			// there was never authenticated as part of this reply — signature
+			// checking passes over authority NS records, so an unsigned in-zone
+			// NS RRset rode out to the client next to the proof, under AD.
+			targetAuthority := append([]dns.RR(nil), targetMsg.Ns...)
+			resp = r.clearAdditional(req, resp, extra...)
+			resp.Ns = targetAuthority
 			return resp, nil
 		}
 	}
